@@ -177,6 +177,9 @@ func chunkingsFor(r *Rng, n int, tier string) [][]int {
 			out = append(out, []int{1 + r.Intn(n-1)})
 		}
 	}
+	if n > 2 { // reads that deliver nothing (0, nil) in the middle of the input
+		out = append(out, []int{1 + r.Intn(n-1), 0, 0, 1})
+	}
 	for j := 0; j < 3; j++ {
 		var c []int
 		left := n
